@@ -179,6 +179,41 @@ fn common(a: &[&str]) -> Option<String> {
             let r = if b01(a[1]) { hk::sample_in_ball::<true>(i32a(2), &hex(a[3])) } else { hk::sample_in_ball::<false>(i32a(2), &hex(a[3])) };
             format!("ok {}", spoly(&r))
         }
+        // mining aid (never used by a check): sibtail <tau> <c_tilde_len> <salt-hex> <start> <count>: among the count seeds
+        // c_tilde = LE64(i) || salt.. , the one for which SampleInBall (FIPS 204 Alg 29, computed here from the definition with
+        // SHAKE256, not by the crate) consumes the most index-candidate bytes; prints `ok <max bytes> <c_tilde>`
+        "sibtail" => {
+            use sha3::digest::{ExtendableOutput, Update, XofReader};
+            let tau: usize = a[1].parse().unwrap();
+            let clen: usize = a[2].parse().unwrap();
+            let salt = hex(a[3]);
+            let (start, count) = (a[4].parse::<u64>().unwrap(), a[5].parse::<u64>().unwrap());
+            let mut best = (0usize, vec![0u8; clen]);
+            let mut buf = [0u8; 256];
+            for i in start..start + count {
+                let mut ct = vec![0u8; clen];
+                ct[..8].copy_from_slice(&i.to_le_bytes());
+                for (j, b) in ct[8..].iter_mut().enumerate() { *b = salt[j % salt.len()]; }
+                let mut h = sha3::Shake256::default();
+                h.update(&ct);
+                let mut x = h.finalize_xof();
+                x.read(&mut buf);
+                let mut pos = 8usize;      // the first 8 bytes are the sign bits
+                let mut used = 0usize;
+                let mut ok = true;
+                for idx in (256 - tau)..256 {
+                    loop {
+                        if pos >= buf.len() { ok = false; break; }
+                        let j = buf[pos] as usize; pos += 1; used += 1;
+                        if j <= idx { break; }
+                    }
+                    if !ok { break; }
+                }
+                if !ok { used = buf.len(); }
+                if used > best.0 { best = (used, ct); }
+            }
+            format!("ok {} {}", best.0, tohex(&best.1))
+        }
         "rejntt" => {
             let s = hex(a[2]);
             let r = if b01(a[1]) { hk::rej_ntt_poly::<true>(&[&s]) } else { hk::rej_ntt_poly::<false>(&[&s]) };
